@@ -119,6 +119,20 @@ func scenarios() []scenario {
 		dump.File{Name: "y.yang", Text: `module y { ` + H("y") + ` typedef t { type int32; } identity b; grouping g { leaf gy { type t; } } container cy; }`},
 		dump.File{Name: "m.yang", Text: `module m { ` + H("m") + ` import x { prefix p; } include s1; typedef tm { type p:t; } identity im { base p:b; } leaf lm { type tm; } leaf lm2 { type p:t; } container um { uses p:g; } augment /p:cx { leaf am { type p:t; } } leaf rm { type identityref { base p:b; } } }`},
 		dump.File{Name: "s1.yang", Text: `submodule s1 { belongs-to m { prefix m; } import y { prefix p; } typedef ts { type p:t; } identity is { base p:b; } leaf ls { type ts; } leaf ls2 { type p:t; } container us { uses p:g; } augment /p:cy { leaf as { type p:t; } } leaf rs { type identityref { base p:b; } } }`})
+	// a closure of more than 32 identities in which names repeat across modules
+	add("many-identities-with-equal-names", nil, func() []dump.File {
+		fs := []dump.File{{Name: "i0.yang", Text: "module i0 { " + H("i0") + " identity root; leaf r { type identityref { base root; } } }"}}
+		for m := 1; m <= 3; m++ {
+			var sb strings.Builder
+			fmt.Fprintf(&sb, "module i%d { %s import i0 { prefix z; } identity a { base z:root; } identity k { base z:root; } identity z { base z:root; }", m, H(fmt.Sprintf("i%d", m)))
+			for j := 0; j < 10; j++ {
+				fmt.Fprintf(&sb, " identity own%d%d { base z:root; }", m, j)
+			}
+			sb.WriteString(" }")
+			fs = append(fs, dump.File{Name: fmt.Sprintf("i%d.yang", m), Text: sb.String()})
+		}
+		return fs
+	}()...)
 	// more errors in one tree than any cap on error lists (130 unknown types, 130 bad ranges, in two
 	// containers and at top level)
 	add("many-errors-in-one-tree", nil, func() dump.File {
